@@ -121,7 +121,6 @@ func c19Solve(src, dst [4][2]float64) (c19H, bool) {
 	}
 	// the 3x3 matrix must be invertible
 	det := new(big.Int)
-	t := new(big.Int)
 	mul3 := func(a, b, c int) *big.Int { t2 := new(big.Int).Mul(h[a], h[b]); return t2.Mul(t2, h[c]) }
 	det.Add(det, mul3(0, 4, 8))
 	det.Add(det, mul3(1, 5, 6))
@@ -129,7 +128,6 @@ func c19Solve(src, dst [4][2]float64) (c19H, bool) {
 	det.Sub(det, mul3(2, 4, 6))
 	det.Sub(det, mul3(1, 3, 8))
 	det.Sub(det, mul3(0, 5, 7))
-	_ = t
 	if det.Sign() == 0 {
 		return h, false
 	}
@@ -485,14 +483,14 @@ func c19TransformCase(r *fw.Rec, idx int) {
 			return
 		}
 		r.Tally("transforms_checked")
-		r.NontrivialH(hashFloats(c19Flat(src), c19Flat(dst)))
+		r.NontrivialH(c19HashFloats(c19Flat(src), c19Flat(dst)))
 		if idx == 0 && rep < 2 {
 			r.Sample(map[string]interface{}{"kind": "transform", "family": fam, "src": c19Flat(src), "dst": c19Flat(dst)})
 		}
 	}
 }
 
-func hashFloats(a, b []float64) uint64 {
+func c19HashFloats(a, b []float64) uint64 {
 	h := uint64(1469598103934665603)
 	for _, v := range a {
 		h = (h ^ math.Float64bits(v)) * 1099511628211
@@ -572,10 +570,10 @@ func c19NewImg(rng *fw.Rand, w, h int, kind string) *c19Img {
 }
 
 const (
-	c19Inside = iota // pixel index determined
-	c19DontCare      // in (-2,-1): nudge to 0 or NotFound
-	c19Far           // <= -2 or >= n+1: NotFound demanded
-	c19Any           // too close to the -2 / n+1 limit to demand either
+	c19Inside   = iota // pixel index determined
+	c19DontCare        // in (-2,-1): nudge to 0 or NotFound
+	c19Far             // <= -2 or >= n+1: NotFound demanded
+	c19Any             // too close to the -2 / n+1 limit to demand either
 )
 
 var c19Million = big.NewInt(1000000)
@@ -585,7 +583,7 @@ var c19Million = big.NewInt(1000000)
 // band: -1 low band [-1,0), +1 high band [n,n+1), 0 otherwise.
 func c19Axis(N, W *big.Int, n int) (idx int, cls int, skip bool, band int) {
 	rem := new(big.Int)
-	q := new(big.Int).DivMod(N, W, rem) // W>0: floor division, 0 <= rem < W
+	q, _ := new(big.Int).DivMod(N, W, rem) // W>0: floor division, 0 <= rem < W
 	if !q.IsInt64() || q.Int64() > 1<<40 || q.Int64() < -(1<<40) {
 		return 0, c19Far, true, 0
 	}
@@ -639,6 +637,7 @@ type c19Expect struct {
 	twisted bool   // denominator changes sign / vanishes inside the grid
 	// per row: band of first/last cell per axis (for the pass tallies)
 	asserted, skipped, inBand int
+	firstPassBottomOnly       int // rows whose leading bottom-band cells are seen by the first pass only
 	rowTally                  map[string]int
 	farCell                   [2]int
 }
@@ -714,45 +713,71 @@ func c19Expected(h c19H, dimX, dimY int, img *c19Img) *c19Expect {
 				e.inBand++
 			}
 		}
-		// which nudge pass does this row exercise? first pass: leading cells in a
-		// band while the last cell is plainly inside (so the pass from the end
-		// stops at once); last pass: the mirror image.
-		if dimX >= 2 && rowOK[0] && rowOK[dimX-1] {
-			f, l := row[0], row[dimX-1]
-			name := func(b cellInfo) []string {
-				var s []string
-				if b.bx < 0 {
-					s = append(s, "left")
-				} else if b.bx > 0 {
-					s = append(s, "right")
-				}
-				if b.by < 0 {
-					s = append(s, "top")
-				} else if b.by > 0 {
-					s = append(s, "bottom")
-				}
-				return s
+		// which nudge pass does this row exercise? The leading run of in-band
+		// cells is handled by the pass from the start, the trailing run by the
+		// pass from the end; a row lying in a band as a whole is walked by both.
+		allOK := true
+		for x := 0; x < dimX; x++ {
+			allOK = allOK && rowOK[x]
+		}
+		if allOK {
+			inB := func(c cellInfo) bool { return c.bx != 0 || c.by != 0 }
+			lead, trail := 0, 0
+			for lead < dimX && inB(row[lead]) {
+				lead++
 			}
-			if (f.bx != 0 || f.by != 0) && l.bx == 0 && l.by == 0 {
-				for _, s := range name(f) {
-					e.rowTally["firstpass_"+s]++
+			for trail < dimX && inB(row[dimX-1-trail]) {
+				trail++
+			}
+			note := func(prefix string, cs []cellInfo) {
+				var seen [4]bool
+				for _, c := range cs {
+					if c.bx < 0 {
+						seen[0] = true
+					} else if c.bx > 0 {
+						seen[1] = true
+					}
+					if c.by < 0 {
+						seen[2] = true
+					} else if c.by > 0 {
+						seen[3] = true
+					}
+				}
+				for k, b := range c19Bands {
+					if seen[k] {
+						e.rowTally[prefix+"_"+b]++
+					}
 				}
 			}
-			if (l.bx != 0 || l.by != 0) && f.bx == 0 && f.by == 0 {
-				for _, s := range name(l) {
-					e.rowTally["lastpass_"+s]++
+			if lead == dimX {
+				note("wholerow", row)
+			} else {
+				note("firstpass", row[:lead])
+				note("lastpass", row[dimX-trail:])
+				// the library's passes continue only over points they changed (points in
+				// (-1,0) are consumed by truncation instead): leading bottom-band cells
+				// are revisited by the pass from the end only if every later cell is changed too
+				if row[0].by > 0 {
+					masked := true
+					for x := 0; x < dimX; x++ {
+						if row[x].bx <= 0 && row[x].by <= 0 {
+							masked = false
+						}
+					}
+					if !masked {
+						e.firstPassBottomOnly++
+					}
 				}
-			}
-			if (l.bx != 0 || l.by != 0) && (f.bx != 0 || f.by != 0) {
-				e.rowTally["bothpasses"]++
 			}
 		}
 	}
 	switch {
-	case anyCls:
+	case e.twisted:
 		e.cls = c19Any
 	case farCls:
 		e.cls = c19Far
+	case anyCls:
+		e.cls = c19Any
 	case dcCls:
 		e.cls = c19DontCare
 	default:
@@ -991,13 +1016,8 @@ func c19SampleAndCheck(r *fw.Rec, s *c19Setup, img *c19Img, class string) bool {
 				sig := api + ":not-found-though-all-points-within-one-pixel"
 				if exp.inBand == 0 {
 					sig = api + ":not-found-though-all-points-inside"
-				} else {
-					for _, k := range []string{"firstpass_bottom", "firstpass_top", "firstpass_left", "firstpass_right", "lastpass_bottom", "lastpass_top", "lastpass_left", "lastpass_right"} {
-						if exp.rowTally[k] > 0 {
-							sig += ":" + k
-							break
-						}
-					}
+				} else if exp.firstPassBottomOnly > 0 {
+					sig += ":row-starts-in-bottom-band"
 				}
 				r.Violation("model-mismatch", sig, fmt.Sprintf("%s %dx%d on a %dx%d image: every cell centre maps inside the image or at most one pixel outside (%d cells in a band), but the call failed: %v", api, s.dimX, s.dimY, img.w, img.h, exp.inBand, err), d)
 				return false
@@ -1042,7 +1062,7 @@ func c19SampleAndCheck(r *fw.Rec, s *c19Setup, img *c19Img, class string) bool {
 		r.Tally("calls_twisted_unexpected")
 	}
 	r.Tally("sampling_setups_" + class)
-	r.NontrivialH(hashFloats(c19Flat(s.src), c19Flat(s.dst)) ^ uint64(s.dimX)<<40 ^ uint64(s.dimY)<<20 ^ uint64(img.w)<<10 ^ uint64(img.h))
+	r.NontrivialH(c19HashFloats(c19Flat(s.src), c19Flat(s.dst)) ^ uint64(s.dimX)<<40 ^ uint64(s.dimY)<<20 ^ uint64(img.w)<<10 ^ uint64(img.h))
 	return true
 }
 
@@ -1326,9 +1346,6 @@ func c19DirectCase(r *fw.Rec, idx int) {
 				want[2*p+coord(band)] = edge(band)
 				if mode == 6 { // also the perpendicular band: image corner
 					b2 := c19Bands[(rng.Intn(2)+2*(1-coord(band)))%4]
-					if coord(b2) == coord(band) {
-						b2 = c19Bands[(coord(band)*2+2)%4]
-					}
 					pts[2*p+coord(b2)] = bandVal(b2)
 					want[2*p+coord(b2)] = edge(b2)
 				}
@@ -1346,7 +1363,7 @@ func c19DirectCase(r *fw.Rec, idx int) {
 				return
 			}
 			for i := range pts {
-				got := math.Floor(pts[i])
+				got := math.Trunc(pts[i]) // the index SampleGrid derives from the point: int(v); differs from floor only in (-1,0) -> 0
 				if got != float64(want[i]) {
 					what := "inside-point-moved"
 					if orig[i] != pts[i] || want[i] != int(math.Floor(orig[i])) {
@@ -1414,7 +1431,7 @@ func c19DirectCase(r *fw.Rec, idx int) {
 				if c == 1 {
 					lim = fh
 				}
-				if !(pts[2*p+c] >= 0 && pts[2*p+c] < lim) {
+				if !(math.Trunc(pts[2*p+c]) >= 0 && pts[2*p+c] < lim) {
 					r.Violation("model-mismatch", "checkAndNudgePoints:accepted-point-left-outside", fmt.Sprintf("coordinate %v in (-2,-1) accepted but left at %v, outside the image", orig[2*p+c], pts[2*p+c]), data())
 					return
 				}
@@ -1435,12 +1452,129 @@ func c19DirectCase(r *fw.Rec, idx int) {
 			}
 			r.Tally("direct_all_inside_untouched")
 		}
-		if before := verifhook.OOBReads(); before != c19OOBBase {
-			// checkAndNudgePoints never reads pixels; any change is from sampling in this process
-			c19OOBBase = before
-		}
 	}
 	r.Nontrivial(fmt.Sprintf("direct/%d", idx))
 }
 
-var c19OOBBase int64
+// ---------------------------------------------------------------------------
+
+func c19SelfTest() error {
+	// affine anchor
+	h, ok := c19Solve(c19Unit, [4][2]float64{{1, 1}, {3, 1}, {3, 5}, {1, 5}})
+	if !ok {
+		return fmt.Errorf("affine anchor: singular")
+	}
+	u, v, _ := h.applyF(0.5, 0.25)
+	if u.Cmp(big.NewRat(2, 1)) != 0 || v.Cmp(big.NewRat(2, 1)) != 0 {
+		return fmt.Errorf("affine anchor: (0.5,0.25) -> (%v,%v), want (2,2)", u, v)
+	}
+	// projective anchor: a projective map sends the intersection of the diagonals
+	// to the intersection of the diagonals: unit square -> trapezoid (0,0),(4,0),(3,2),(1,2)
+	h, ok = c19Solve(c19Unit, [4][2]float64{{0, 0}, {4, 0}, {3, 2}, {1, 2}})
+	if !ok {
+		return fmt.Errorf("projective anchor: singular")
+	}
+	u, v, _ = h.applyF(0.5, 0.5)
+	if u.Cmp(big.NewRat(2, 1)) != 0 || v.Cmp(big.NewRat(4, 3)) != 0 {
+		return fmt.Errorf("projective anchor: centre -> (%v,%v), want (2,4/3)", u, v)
+	}
+	// and the reverse direction through the same solver
+	h, ok = c19Solve([4][2]float64{{0, 0}, {4, 0}, {3, 2}, {1, 2}}, c19Unit)
+	if !ok {
+		return fmt.Errorf("projective anchor (reverse): singular")
+	}
+	u, v, _ = h.apply(big.NewRat(2, 1), big.NewRat(4, 3))
+	_ = v
+	X, Y, W := h.apply(big.NewRat(2, 1), big.NewRat(4, 3))
+	if X.Quo(X, W).Cmp(big.NewRat(1, 2)) != 0 || Y.Quo(Y, W).Cmp(big.NewRat(1, 2)) != 0 {
+		return fmt.Errorf("projective anchor (reverse): wrong centre")
+	}
+	_ = u
+	// degenerate input is refused
+	if _, ok := c19Solve(c19Unit, [4][2]float64{{0, 0}, {1, 1}, {2, 2}, {5, 0}}); ok {
+		return fmt.Errorf("collinear destination accepted")
+	}
+	// axis classification
+	type tc struct {
+		n, d int64
+		ext  int
+		idx  int
+		cls  int
+		skip bool
+		band int
+	}
+	for _, c := range []tc{
+		{5, 2, 10, 2, c19Inside, false, 0},
+		{-1, 2, 10, 0, c19Inside, false, -1},
+		{21, 2, 10, 9, c19Inside, false, 1},
+		{-3, 2, 10, 0, c19DontCare, false, 0},
+		{-5, 2, 10, 0, c19Far, true, 0},
+		{-4, 2, 10, 0, c19Any, true, 0},
+		{22, 2, 10, 0, c19Any, true, 0},
+		{23, 2, 10, 0, c19Far, true, 0},
+		{6, 2, 10, 3, c19Inside, true, 0},
+		{0, 2, 10, 0, c19Inside, false, 0},
+		{20, 2, 10, 9, c19Inside, false, 0},
+		{-2, 2, 10, 0, c19DontCare, false, 0},
+	} {
+		idx, cls, skip, band := c19Axis(big.NewInt(c.n), big.NewInt(c.d), c.ext)
+		if cls != c.cls || skip != c.skip || band != c.band || (!skip && cls == c19Inside && idx != c.idx) {
+			return fmt.Errorf("c19Axis(%d/%d, n=%d) = idx %d cls %d skip %v band %d", c.n, c.d, c.ext, idx, cls, skip, band)
+		}
+	}
+	return nil
+}
+
+func c19(c *fw.Ctx) {
+	c.Rule("transform: seeded convex quadrilateral pairs of four families (axis-aligned rectangle, rotated rectangle, sheared parallelogram, perspective = every corner moved independently; both orientations, any starting corner, magnitudes 1..2000, grid-like sources), rejected unless every corner triangle holds >= 8% of the squared diameter; QuadrilateralToQuadrilateral / SquareToQuadrilateral / QuadrilateralToSquare checked through TransformPoints and TransformPointsXY on the 4 corners and 24 interior/exterior points against the projective map solved exactly (8x9 system, big.Rat), points with |denominator| < 0.2 of the corner denominators skipped. sampling: every grid dimension 1..177 (square) plus random non-square/special dimensions, images 2..307 px (noise, all-black, blocks, black/white frame), grid->image pairs of the four families fitted so that the hull of the cell centres lies inside the image (class inside) or overhangs each edge by <1 px, 1..2 px, >2 px (class overhang), or is an affine map aimed at one band x one pass (class targeted); expected bit = model pixel at floor of the exactly mapped cell centre (big.Int homogeneous arithmetic), bands [-1,0)/[n,n+1) -> index 0/n-1; direct calls of checkAndNudgePoints with 1..3 leading/trailing points in each band. distinct = distinct (quadrilateral pair, dims, image size)")
+	c.Assume("don't-care: coordinates in (-2,-1) may be nudged to 0 or refused (DESIGN C19); cells whose exact centre is within 1e-6*max(1,|coord|) of a pixel boundary are not asserted; calls with a cell within that margin of the -2 / n+1 limits have no demanded outcome; transforms whose denominator changes sign or falls below 15% of its maximum inside the grid rectangle are not generated (a straight grid row then maps to a straight monotone run of points, which is what makes checking only the row ends sufficient); checkAndNudgePoints is only charged for points at the ends of the list; after a nudge only the pixel index (floor) of each coordinate is demanded, not its exact value")
+	nT := c.Pick(400, 6000)
+	for i := 0; i < nT; i++ {
+		i := i
+		c.Run(fmt.Sprintf("transform/%d", i), func(r *fw.Rec) { c19TransformCase(r, i) })
+	}
+	nS := c.Pick(420, 4000)
+	for i := 0; i < nS; i++ {
+		i := i
+		c.Run(fmt.Sprintf("sample/inside/%d", i), func(r *fw.Rec) { c19SamplingCase(r, i, false) })
+	}
+	nO := c.Pick(600, 8000)
+	for i := 0; i < nO; i++ {
+		i := i
+		c.Run(fmt.Sprintf("sample/overhang/%d", i), func(r *fw.Rec) { c19SamplingCase(r, 177+i, true) })
+	}
+	nG := c.Pick(160, 1600)
+	for i := 0; i < nG; i++ {
+		i := i
+		c.Run(fmt.Sprintf("sample/targeted/%d", i), func(r *fw.Rec) { c19TargetedCase(r, i) })
+	}
+	nD := c.Pick(64, 640)
+	for i := 0; i < nD; i++ {
+		i := i
+		c.Run(fmt.Sprintf("nudge/direct/%d", i), func(r *fw.Rec) { c19DirectCase(r, i) })
+	}
+	c.Exhaustive("square grid dimensions 1..177 (one sampling set-up each, class inside)")
+	for _, f := range c19Families {
+		c.Floor("quad_pairs_"+f, 100)
+		c.Floor("calls_matrix_compared_"+f, 50)
+	}
+	c.Floor("corners_checked", 5000)
+	c.Floor("points_checked_interior", 5000)
+	c.Floor("points_checked_exterior", 5000)
+	c.Floor("cells_asserted", 500000)
+	c.Floor("cells_asserted_in_band", 500)
+	c.Floor("calls_matrix_compared_image_black", 100)
+	c.Floor("calls_matrix_compared_image_noise", 100)
+	c.Floor("calls_beyond_band_notfound", 100)
+	c.Floor("direct_beyond_band_notfound", 500)
+	for _, p := range c19Passes {
+		for _, b := range c19Bands {
+			c.Floor("direct_"+p+"_"+b, 100)
+			c.Floor("samplegrid_rows_"+p+"_"+b, 20)
+		}
+	}
+	c.Floor("grid_dims_square_1", 1)
+	c.Floor("grid_dims_square_2", 1)
+	c.Floor("grid_dims_square_177", 1)
+	c.Floor("grid_dims_nonsquare", 100)
+}
